@@ -38,8 +38,8 @@ type sTx struct {
 }
 
 type sCase struct {
-	Oracle string `json:"oracle"` // "scratch"
-	Mode   string `json:"mode"`   // "executor" | "direct"
+	Oracle string `json:"oracle"`                    // "scratch"
+	Mode   string `json:"mode"`                      // "executor" | "direct"
 	Legacy bool   `json:"pre_proposal013,omitempty"` // fork schedule with Proposal013 not yet active: receipts take the logs returned by the EVM
 	Txs    []sTx  `json:"txs"`
 }
